@@ -242,6 +242,7 @@ func C03Scenario() *Scenario {
 			ops = append(ops, s.ChildChaos(b)...)
 			ops = append(ops, s.OrphanOps(b)...)
 			ops = append(ops, s.ParentEdits(b)...)
+			ops = append(ops, s.ParentLifecycle(b)...)
 			ops = append(ops, GCOps(w)...)
 			return ops
 		}
